@@ -30,7 +30,8 @@ def run(name, also=None):
                            timeout=3600)
         out, rc = p.stdout, p.returncode
     except subprocess.TimeoutExpired:
-        out, rc = "timeout", -1
+        # no verdict (typically: an hour in the queue for the shared Lean lock on a loaded machine): keep the previous record
+        return name, pid, None
     viol = [l for l in out.splitlines() if l.startswith("VIOLATION")]
     first = next((l[2:] for l in out.splitlines() if l.startswith("# ")), "")
     return name, pid, {
@@ -80,6 +81,9 @@ def main():
     with ThreadPoolExecutor(max_workers=j) as ex:
         for name, pid, r in ex.map(lambda a: run(*a), jobs):
             key = name if pid == prop_of(name) else name + "@" + pid
+            if r is None:
+                print("%-40s %s TIMEOUT (no verdict; previous record kept)" % (key, pid), flush=True)
+                continue
             if name.startswith("control-"):
                 r["expected"] = "silent"
                 r["ok"] = r["exit"] == 0
